@@ -188,7 +188,9 @@ func negativeControls(c *core.Ctx, g *cgraph, base string) bool {
 		}
 		return -1
 	}
-	refused := find(func(e *cedge) bool { return e.A.Op == "sign" && e.A.Res == "refused" && g.States[e.F].N >= 1 && e.A.Why == "conflict" })
+	refused := find(func(e *cedge) bool {
+		return e.A.Op == "sign" && e.A.Res == "refused" && g.States[e.F].N >= 1 && e.A.Why == "conflict"
+	})
 	rename := find(func(e *cedge) bool { return e.A.Op == "rename" && g.States[e.F].N == 2 })
 	release := find(func(e *cedge) bool { return e.A.Op == "release" && g.States[e.F].N == 2 && len(g.States[e.F].Rel) == 1 })
 	if refused < 0 || rename < 0 || release < 0 {
@@ -268,57 +270,74 @@ func negativeControls(c *core.Ctx, g *cgraph, base string) bool {
 	return true
 }
 
-// validateTraces runs TLC on the recorded random sequences, and on a copy with one
-// recorded field corrupted (which must be rejected).
-func validateTraces(c *core.Ctx, specDir string, data []byte, events int) {
-	o := c.Out()
+// traceRuns holds the two TLC runs over the recorded random sequences: the trace as
+// recorded, and a copy with the result of one refused call flipped (negative control).
+type traceRuns struct {
+	lines  [][]byte
+	res    *tlc.Result
+	nres   *tlc.Result
+	target int
+	errs   []string
+}
+
+// runTraceValidation only runs TLC (it may run beside the replay jobs); judgeTraces
+// turns the results into the verdict.
+func runTraceValidation(c *core.Ctx, specDir string, data []byte) *traceRuns {
+	tr := &traceRuns{target: -1}
 	runTrace := func(d []byte) *tlc.Result {
 		var r *tlc.Result
 		var err error
 		for try := 0; try < 2; try++ {
-			r, err = tlc.Run(tlc.Options{SpecDir: specDir, Module: "Trace_PrivVal", Config: "Trace_PrivVal.cfg", Workers: 1, Timeout: c.MinutesT(3, 15),
+			r, err = tlc.Run(tlc.Options{SpecDir: specDir, Module: "Trace_PrivVal", Config: "Trace_PrivVal.cfg", Workers: 1, Timeout: c.MinutesT(3, 20),
 				Files: map[string][]byte{"trace.ndjson": d, "Trace_PrivVal.cfg": traceCfg()}})
 			if err == nil && (r.Finished || r.Violated != "" || r.TimedOut || r.ErrorText != "") {
 				break
 			}
 		}
 		if err != nil {
-			c.Infra("trace validation: %v", err)
+			tr.errs = append(tr.errs, err.Error())
 			return nil
 		}
 		return r
 	}
 	lines := bytes.Split(bytes.TrimSpace(data), []byte("\n"))
-	accepted := func(r *tlc.Result) bool {
-		return r.Finished && r.Violated == "" && !r.TimedOut && !r.Deadlock && r.ErrorText == "" && r.Distinct >= len(lines)
-	}
+	tr.lines = lines
 	if d := os.Getenv("VERIF_C04_DEBUG"); d != "" {
 		ioutil.WriteFile(filepath.Join(d, "trace.ndjson"), data, 0644)
 		ioutil.WriteFile(filepath.Join(d, "Trace_PrivVal.cfg"), traceCfg(), 0644)
 	}
-	// the negative control (the same trace with the result of one refused call flipped,
-	// which must be rejected) runs at the same time
-	target := -1
 	for i := len(lines) / 2; i < len(lines); i++ {
 		if bytes.Contains(lines[i], []byte(`"e":"ret"`)) && bytes.Contains(lines[i], []byte(`"ok":false`)) {
-			target = i
+			tr.target = i
 			break
 		}
 	}
-	var nres *tlc.Result
 	nDone := make(chan struct{})
 	go func() {
 		defer close(nDone)
-		if target < 0 {
+		if tr.target < 0 {
 			return
 		}
 		bad := make([][]byte, len(lines))
 		copy(bad, lines)
-		bad[target] = bytes.Replace(lines[target], []byte(`"ok":false`), []byte(`"ok":true`), 1)
-		nres = runTrace(append(bytes.Join(bad, []byte("\n")), '\n'))
+		bad[tr.target] = bytes.Replace(lines[tr.target], []byte(`"ok":false`), []byte(`"ok":true`), 1)
+		tr.nres = runTrace(append(bytes.Join(bad, []byte("\n")), '\n'))
 	}()
-	res := runTrace(data)
+	tr.res = runTrace(data)
 	<-nDone
+	return tr
+}
+
+// judgeTraces: the recorded sequences must be accepted by TLC, the corrupted copy rejected.
+func judgeTraces(c *core.Ctx, tr *traceRuns, events int) {
+	o := c.Out()
+	for _, e := range tr.errs {
+		c.Infra("trace validation: %s", e)
+	}
+	lines, res, nres, target := tr.lines, tr.res, tr.nres, tr.target
+	accepted := func(r *tlc.Result) bool {
+		return r.Finished && r.Violated == "" && !r.TimedOut && !r.Deadlock && r.ErrorText == "" && r.Distinct >= len(lines)
+	}
 	if res == nil {
 		return
 	}
